@@ -283,3 +283,34 @@ def check(cx):
         cx.verdict(bool(fl) and not free, r6, "drop-forces", fdrop.where(), "flush on every path of drop",
                    "Drop for WriteAheadLog can return without forcing the log: records appended to block zero since the last force are lost "
                    "on a close that nobody forced explicitly")
+
+    # ---- C17.7 reopening keeps block zero ------------------------------------------------------------------------------------
+    r7 = cx.rule("C17.7", "FLOW: block zero is the log's first data block as well as its header: the handle WriteAheadLog::open returns "
+                 "after reading block zero from the file keeps that very buffer as its `header` (never a fresh block with some fields "
+                 "copied over) - otherwise the next force rewrites block zero without the records it held", floor=1)
+    fo7 = cx.guard(r7, "open", p.method, WAL, "open", "io::disk::FileOperations")
+    if fo7:
+        reads = [c for c in fo7.calls() if c.callee.endswith("::read_exact") and len(c.args) > 1 and op_local(c.args[1]) is not None]
+        bufs = set()
+        for c in reads:
+            ls = fo7.provenance_locals(op_local(c.args[1])) | {op_local(c.args[1])}
+            for _ in range(3):
+                more = set()
+                for x in fo7.calls():
+                    if x.dst and x.dst[0] in ls and x.callee.rsplit("::", 1)[-1] in ("as_mut", "as_mut_slice", "deref_mut", "borrow_mut") and x.args and op_local(x.args[0]) is not None:
+                        more |= fo7.provenance_locals(op_local(x.args[0])) | {op_local(x.args[0])}
+                ls |= more
+            bufs |= ls
+        after = set()
+        for c in reads:
+            after |= fo7.reachable(c.bb)
+        aggs = [(bi, st) for bi, b in enumerate(fo7.blocks) if bi in after and not b.get("cleanup") for st in b["stmts"]
+                if st["rv"].get("r") == "agg" and st["rv"].get("adt") == WAL and "header" in (st["rv"].get("fields") or [])]
+        good = bool(reads) and bool(aggs)
+        for bi, st in aggs:
+            o = st["rv"]["o"][st["rv"]["fields"].index("header")]
+            h = op_local(o)
+            good = good and h is not None and bool((fo7.provenance_locals(h) | {h}) & bufs)
+        cx.verdict(good, r7, "header-is-the-block-read", fo7.where(), "the returned handle's header is the buffer block zero was read into",
+                   "WriteAheadLog::open builds its header from something other than the block it read from the file: the records stored in "
+                   "block zero are gone from memory, and the next force (or Drop) overwrites them on disk")
